@@ -3,6 +3,7 @@ package c08
 
 import (
 	"encoding/json"
+	"errors"
 	"flag"
 	"fmt"
 	"go/ast"
@@ -265,6 +266,10 @@ func checkBatch(ps []*prepared) (failedIdx int, err error) {
 		}
 	}
 	bin, err := b.Build()
+	if errors.Is(err, emit.ErrHarness) {
+		fmt.Println("HARNESS:", err)
+		os.Exit(4) // inconclusive: the export shim no longer fits the emitted code
+	}
 	if err != nil {
 		// attribute the compiler error to a package
 		idx := 0
